@@ -673,23 +673,94 @@ theorem collect_read_unchanged (s : Store) (a : Addr) (ha : a.valid = true) (bs 
 
 /-! ### coercions -/
 
-theorem coerce_encode_decode (v : Value) (t : Ty) (sz : Size) (hty : v.hasTy t = true) (hwf : v.WF)
-    (hsz : expectedSize t = some sz) :
-    ∃ w, coerceToIo v t sz = .ok w ∧ w.WF ∧ w.ioSize = some sz ∧ coerceFromIo w t = .ok v := by
-  cases t <;> cases v <;> simp [Value.hasTy] at hty <;>
-    simp only [expectedSize, Option.some.injEq] at hsz <;> subst hsz <;>
-    simp only [Value.WF] at hwf <;>
-    simp [coerceToIo, expectedSize, coerceFromIo, Value.WF, Value.ioSize, asSigned, asUnsigned] <;>
+theorem scale_ne_zero (k : TKind) : k.scale ≠ 0 := by cases k <;> simp [TKind.scale]
+
+theorem tick_encode_decode (k : TKind) (n : Int) (sz : Size) (hwf : (Value.tick k n).WF)
+    (hex : (Value.tick k n).ioExact) (hsz : expectedSize (.tick k) = some sz) :
+    ∃ w, coerceToIo (.tick k n) (.tick k) sz = .ok w ∧ w.WF ∧ w.ioSize = some sz ∧
+      coerceFromIo w (.tick k) = .ok (.tick k n) := by
+  simp only [expectedSize, Option.some.injEq] at hsz
+  subst hsz
+  simp only [Value.WF] at hwf
+  simp only [Value.ioExact] at hex
+  by_cases hl : k.long = true
+  · simp [coerceToIo, expectedSize, enumToLint, tickToIo, hl, coerceFromIo, Value.WF, Value.ioSize, asSigned,
+      asUnsigned]
     omega
+  · rcases hex with hl' | ⟨c, rfl, h1, h2⟩
+    · exact absurd hl' hl
+    have hback : asSigned 32 (asUnsigned 32 c) = c := by simp [asSigned, asUnsigned]; omega
+    have hlt : asUnsigned 32 c < 4294967296 := by simp [asUnsigned]; omega
+    simp [coerceToIo, expectedSize, enumToLint, tickToIo, hl, coerceFromIo, Value.WF, Value.ioSize,
+      Int.mul_tdiv_cancel_left _ (scale_ne_zero k), h1, h2, hback, hlt]
+
+theorem coerce_encode_decode (v : Value) (t : Ty) (sz : Size) (hty : v.hasTy t = true) (hwf : v.WF)
+    (hex : v.ioExact) (hsz : expectedSize t = some sz) :
+    ∃ w, coerceToIo v t sz = .ok w ∧ w.WF ∧ w.ioSize = some sz ∧ coerceFromIo w t = .ok v := by
+  cases t with
+  | tick k =>
+    cases v <;> simp [Value.hasTy] at hty
+    subst hty
+    exact tick_encode_decode _ _ sz hwf hex hsz
+  | _ =>
+    cases v <;> simp [Value.hasTy] at hty <;>
+      simp only [expectedSize, Option.some.injEq] at hsz <;> subst hsz <;>
+      simp only [Value.WF] at hwf <;>
+      simp [coerceToIo, expectedSize, enumToLint, coerceFromIo, Value.WF, Value.ioSize, asSigned, asUnsigned] <;>
+      omega
+
+theorem tick_decode_encode (w : Value) (k : TKind) (sz : Size) (hw : w.ioSize = some sz) (hwf : w.WF)
+    (hsz : expectedSize (.tick k) = some sz) :
+    ∃ v, coerceFromIo w (.tick k) = .ok v ∧ v.hasTy (.tick k) = true ∧ v.WF ∧ v.ioExact ∧
+      coerceToIo v (.tick k) sz = .ok w := by
+  simp only [expectedSize, Option.some.injEq] at hsz
+  subst hsz
+  by_cases hl : k.long = true
+  · cases w <;> simp [Value.ioSize, hl] at hw
+    simp only [Value.WF] at hwf
+    simp [coerceToIo, expectedSize, enumToLint, tickToIo, hl, coerceFromIo, Value.WF, Value.hasTy, Value.ioExact,
+      asSigned, asUnsigned]
+    omega
+  · cases w <;> simp [Value.ioSize, hl] at hw
+    simp only [Value.WF] at hwf
+    rename_i x
+    have hs := scale_ne_zero k
+    have hc : -2147483648 ≤ asSigned 32 x ∧ asSigned 32 x < 2147483648 := by
+      simp [asSigned]; omega
+    have hback : asUnsigned 32 (asSigned 32 x) = x := by
+      simp [asSigned, asUnsigned]; omega
+    have hrange : -9223372036854775808 ≤ k.scale * asSigned 32 x ∧ k.scale * asSigned 32 x < 9223372036854775808 := by
+      cases k <;> simp [TKind.scale] <;> omega
+    simp [coerceToIo, expectedSize, enumToLint, tickToIo, hl, coerceFromIo, Value.WF, Value.hasTy, Value.ioExact,
+      Int.mul_tdiv_cancel_left _ hs, hc, hback, hrange]
+    exact ⟨asSigned 32 x, rfl, hc.1, hc.2⟩
 
 theorem coerce_decode_encode (w : Value) (t : Ty) (sz : Size) (hw : w.ioSize = some sz) (hwf : w.WF)
     (hsz : expectedSize t = some sz) :
-    ∃ v, coerceFromIo w t = .ok v ∧ v.hasTy t = true ∧ v.WF ∧ coerceToIo v t sz = .ok w := by
-  cases t <;> simp only [expectedSize, Option.some.injEq, reduceCtorEq] at hsz <;> subst hsz <;>
-    cases w <;> simp [Value.ioSize] at hw <;>
-    simp only [Value.WF] at hwf <;>
-    simp [coerceToIo, expectedSize, coerceFromIo, Value.WF, Value.hasTy, asSigned, asUnsigned] <;>
-    omega
+    ∃ v, coerceFromIo w t = .ok v ∧ v.hasTy t = true ∧ v.WF ∧ v.ioExact ∧ coerceToIo v t sz = .ok w := by
+  cases t with
+  | tick k => exact tick_decode_encode w k sz hw hwf hsz
+  | _ =>
+    simp only [expectedSize, Option.some.injEq, reduceCtorEq] at hsz <;> subst hsz <;>
+      cases w <;> simp [Value.ioSize] at hw <;>
+      simp only [Value.WF] at hwf <;>
+      simp [coerceToIo, expectedSize, enumToLint, coerceFromIo, Value.WF, Value.hasTy, Value.ioExact, asSigned,
+        asUnsigned] <;>
+      omega
+
+/-- An enum whose numeric value is a value of the integer type `t` publishes exactly what that integer
+publishes (`Value::Enum(e) => Value::LInt(e.numeric_value)` followed by the integer arm). -/
+theorem enum_publish (n : Int) (t : Ty) (sz : Size) (hty : ((Value.enum n).plain t).hasTy t = true)
+    (hwf : ((Value.enum n).plain t).WF) :
+    coerceToIo (.enum n) t sz = coerceToIo ((Value.enum n).plain t) t sz := by
+  by_cases hn : 0 ≤ n
+  · have hn' : ¬ n < 0 := by omega
+    cases t <;> simp [Value.plain, Value.hasTy, hn] at hty hwf ⊢ <;>
+      simp only [Value.WF] at hwf <;>
+      simp [coerceToIo, expectedSize, enumToLint, signedToIo, unsignedToIo, toI64, toU64, Except.map, hwf, hn']
+  · cases t <;> simp [Value.plain, Value.hasTy, hn] at hty hwf ⊢ <;>
+      simp only [Value.WF] at hwf <;>
+      simp [coerceToIo, expectedSize, enumToLint, signedToIo, toI64, Except.map, hwf]
 
 /-- Reading a valid address of a well-formed image yields an in-range I/O value of the address size. -/
 theorem read_valid (io : Io) (a : Addr) (hv : a.valid = true) (hio : io.WF) :
@@ -1266,6 +1337,8 @@ theorem leaves_eq (sh : Shape) : sh.leaves = fieldOffsets sh.tys 0 := by
 theorem ioSize_of_expected (t : Ty) (h : (expectedSize t).isSome = true) :
     ∃ sz, t.ioSize? = some sz ∧ expectedSize t = some sz ∧ sz.bytes = t.bytes := by
   cases t <;> simp [expectedSize] at h <;> simp [Ty.ioSize?, expectedSize, Size.bytes, Ty.bytes]
+  rename_i k
+  cases k <;> rfl
 
 theorem offsetAddress_props (base : Addr) (off : Nat) (sz : Size) (hbit : base.bit ≤ 7) :
     (offsetAddress base off sz).valid = true ∧ (offsetAddress base off sz).size = sz ∧
@@ -1332,5 +1405,41 @@ theorem expandLeaves_props (first : Nat) (base : Addr) (hbit : base.bit ≤ 7) (
         simp only [Function.comp, Nat.succ_eq_add_one]
         congr 2
         omega
+
+/-- `io_size_for_type` (compiler) and `expected_size_for_type` (coercions) agree on every type. -/
+theorem ioSize_eq_expected (t : Ty) : t.ioSize? = expectedSize t := by cases t <;> rfl
+
+/-- Every leaf type of an accepted `AT` declaration is a type the coercions know. -/
+theorem expandLeaves_some_expected (first : Nat) (base : Addr) (tys : List Ty) :
+    ∀ (off k : Nat) (bs : List Binding), expandLeaves first base (fieldOffsets tys off) k = some bs →
+    ∀ t ∈ tys, (expectedSize t).isSome = true := by
+  induction tys with
+  | nil => intro _ _ _ _ t ht; cases ht
+  | cons t tys ih =>
+    intro off k bs h t' ht'
+    simp only [fieldOffsets, expandLeaves] at h
+    cases hsz : t.ioSize? with
+    | none => simp [hsz] at h
+    | some sz =>
+      cases hrest : expandLeaves first base (fieldOffsets tys (off + t.bytes)) (k + 1) with
+      | none => simp [hsz, hrest] at h
+      | some bs' =>
+        simp only [List.mem_cons] at ht'
+        rcases ht' with rfl | ht'
+        · rw [← ioSize_eq_expected, hsz]; rfl
+        · exact ih _ _ _ hrest t' ht'
+
+/-- A value that is not an enum stands for itself. -/
+theorem plain_publish (v : Value) (t : Ty) (sz : Size) (hty : (v.plain t).hasTy t = true) (hwf : (v.plain t).WF) :
+    coerceToIo v t sz = coerceToIo (v.plain t) t sz := by
+  cases v with
+  | enum n => exact enum_publish n t sz hty hwf
+  | _ => rfl
+
+/-- `coerce_from_io` never yields an enum value. -/
+theorem coerceFromIo_not_enum (w : Value) (t : Ty) (v : Value) (h : coerceFromIo w t = .ok v) (n : Int) :
+    v ≠ .enum n := by
+  cases t <;> cases w <;> simp [coerceFromIo] at h <;> (try split at h) <;> simp_all <;>
+    (subst_vars; simp)
 
 end TrustVerif.C07
